@@ -70,3 +70,14 @@ CHECKS["C12"] = dict(
     assumptions=E1_ASSUME,
     units=[dict(pkg="api/v2", test="TestVerifC12", shards_quick=16, shards_thorough=16, budget_quick=90, budget_thorough=1200)],
 )
+
+CHECKS["C09"] = dict(
+    level="model_checking",
+    engine="seqx",
+    rule="part step-rule: explicit-state BFS over pairs of real Silences instances (canonical key = both store dumps relative to now); events: merge of each of 8 versions (2 ids x {v1, extended, expired, past-retention}) on either instance, full-state exchange either way, local extend/expire, GC, advances 1/3/5. part permutations: every sub-multiset (size 2..4/5) x every permutation x every batching x duplication. states = distinct canonical states / distinct final contents; transitions = merges and events executed",
+    technique="explicit-state model checking of the implementation against a last-writer-wins reference model + exhaustive enumeration of delivery orders/batchings",
+    level_text="After every event each instance's raw store equals the reference (per id the newest UpdatedAt among versions received and not past retention at receipt; never newer->older; never resurrect past retention; GC exactly at expiry) and a merge that changes nothing calls broadcast zero times; every order, duplication and batching of a version multiset inside one window yields the same store.",
+    level_note="Histories that straddle the expiry of a tombstone are judged by the step rule only (order dependence after tombstone expiry is inherent to the design and not demanded by the statement). 'eventually effective on every connected instance' is decided on the mesh fixture (C19).",
+    assumptions=E1_ASSUME,
+    units=[dict(pkg="silence", test="TestVerifC09", shards_quick=16, shards_thorough=16, budget_quick=90, budget_thorough=1200)],
+)
